@@ -608,6 +608,30 @@ static inline std::string trimCopy(std::string s)
 std::string replace(std::string string, const std::string &from, const std::string &to);
 
 /**
+ * @brief Collect the identifier attributes within the given MathML string.
+ *
+ * Add the identifiers found on the math elements, and on their descendants, of the
+ * @p math string to @p idList.  Text that cannot be parsed contributes nothing.
+ *
+ * @param math The MathML string of a component, a test value, or a reset value.
+ * @param idList The @c IdList to add the identifiers to.
+ */
+void listMathIds(const std::string &math, IdList &idList);
+
+/**
+ * @brief Collect the identifier attributes within all MathML strings of the given model.
+ *
+ * Collect the identifiers found in the math of the components, the test values, and the
+ * reset values of the @p model.  These identifiers cannot be looked up with the annotator
+ * but an automatic identifier must not repeat them.
+ *
+ * @param model The @c ModelPtr to interrogate.
+ *
+ * @return An @c IdList collection of the identifiers in MathML.
+ */
+IdList listMathIds(const ModelPtr &model);
+
+/**
  * @brief Collect all existing identifier attributes within the given model.
  *
  * @param model The @c ModelPtr to interrogate.
